@@ -58,6 +58,10 @@ class _Err(Exception):
     pass
 
 
+# round-to-nearest turns anything >= 2**1024 - 2**970 into an infinity
+_DOUBLE_LIMIT = Fraction(2) ** 1024 - Fraction(2) ** 970
+
+
 def _f(x):
     try:
         return float(x)
@@ -130,8 +134,13 @@ class _Parser(object):
             if m > d0:
                 k = m
         text = s[i:k]
+        value = Fraction(text)
+        if abs(value) >= _DOUBLE_LIMIT:
+            # a literal beyond the range of a double has no real numeric value in an implementation that computes in
+            # doubles: it is an error at the literal (render up to it)
+            raise _Err()
         self.i = k
-        return Fraction(text)
+        return value
 
     def flag(self):
         if self.i < self.n and self.s[self.i] in "01":
